@@ -766,4 +766,746 @@ Section Pieces.
       change (@nil Z) with (fst (@nil Z, v)) in Hs. rewrite map_nth in Hs.
       apply nth_error_nth with (d := ([], v)) in Hn. rewrite Hn in Hs. exact Hs.
   Qed.
+
+  Definition nd_shapes (args : list (operand V)) : list shape :=
+    flat_map (fun a => match a with ODn d => [d_shape d] | _ => [] end) args.
+
+  Lemma nd_shapes_incl args : incl (nd_shapes args) (map (op_shape V) args).
+  Proof.
+    induction args as [|a ar IH]; simpl; [intros x []|]. destruct a as [c|d]; simpl.
+    - intros x Hx. right. apply IH. exact Hx.
+    - intros x [<-|Hx]; [left; reflexivity|right; apply IH; exact Hx].
+  Qed.
+
+  Lemma sparse_of_In args m w c : In c (sparse_of V args m w) -> In (OSp c) args.
+  Proof.
+    revert m. induction args as [|a ar IH]; intros [|mi mr]; try (simpl; tauto).
+    rewrite sparse_of_cons. intros H. apply in_app_or in H. destruct H as [H|H]; [|right; eapply IH; eauto].
+    destruct a as [c'|d]; [|destruct H]. destruct mi as [b|]; [|destruct H].
+    destruct (Bool.eqb b w); [|destruct H]. destruct H as [<-|[]]. left. reflexivity.
+  Qed.
+
+  Lemma sparse_of_combine args m c : In c (sparse_of V args m true) -> In (OSp c, Some true) (combine args m).
+  Proof.
+    revert m. induction args as [|a ar IH]; intros [|mi mr]; try (simpl; tauto).
+    rewrite sparse_of_cons. intros H. apply in_app_or in H. destruct H as [H|H]; [|right; eapply IH; eauto].
+    destruct a as [c'|d]; [|destruct H]. destruct mi as [[|]|]; simpl in H; try tauto.
+    destruct H as [<-|[]]. left. reflexivity.
+  Qed.
+
+  Lemma masks_any_true args m :
+    In m (masks V args) -> existsb is_true m = true -> sparse_of V args m true <> [].
+  Proof.
+    revert m. induction args as [|a ar IH]; intros m Hm Hex.
+    - simpl in Hm. destruct Hm as [<-|[]]. discriminate.
+    - apply masks_cons_In in Hm. destruct Hm as [c [m' [-> [Hc Hm']]]]. rewrite sparse_of_cons.
+      simpl in Hex. unfold choices in Hc. destruct a as [co|d]; simpl in Hc.
+      + destruct Hc as [<-|[<-|[]]]; simpl; [discriminate|]. apply IH; assumption.
+      + destruct Hc as [<-|[]]. simpl in Hex |- *. apply IH; assumption.
+  Qed.
+
+  Lemma masks_no_false args m :
+    forallb (fun mi => match mi with Some false => false | _ => true end) m = true -> sparse_of V args m false = [].
+  Proof.
+    revert m. induction args as [|a ar IH]; intros [|mi mr] H; try reflexivity.
+    rewrite sparse_of_cons. simpl in H. apply andb_true_iff in H. destruct H as [H1 H2]. rewrite (IH mr H2).
+    destruct a; [|reflexivity]. destruct mi as [[|]|]; try reflexivity. discriminate.
+  Qed.
+
+  Lemma combine_aligned args m mbs :
+    (forall c, In c (sparse_of V args m true) -> BT (c_shape c) mbs) ->
+    (forall s, In s (nd_shapes args) -> BT s mbs) ->
+    forall a mi, In (a, mi) (combine args m) -> aligned mbs a mi.
+  Proof.
+    revert m. induction args as [|a ar IH]; intros [|mi mr] H1 H2 a' mi' Hin; simpl in Hin; try tauto.
+    rewrite sparse_of_cons in H1. destruct Hin as [E|Hin].
+    - inversion E; subst a' mi'. unfold aligned. destruct a as [c|d].
+      + destruct mi as [[|]|]; auto. apply H1. left. reflexivity.
+      + apply H2. simpl. left. reflexivity.
+    - apply (IH mr); auto.
+      + intros c Hc. apply H1. apply in_or_app. right. exact Hc.
+      + intros s0 Hs. apply H2. simpl. destruct a; [exact Hs|right; exact Hs].
+  Qed.
+
+  (* ---------------------------------------------------------------- the piece of one mask *)
+  Definition piece_of (o : option (list (idx * V))) : list (idx * V) :=
+    match o with Some l => l | None => [] end.
+
+  Theorem piece_spec args sh fill m :
+    Forall op_ok args -> np_broadcast_rel (map (op_shape V) args) sh -> shape_ok sh ->
+    In m (masks V args) -> existsb is_true m = true ->
+    exists o, func_coords_data V veqb vzero f args sh fill m = Ok o /\
+      NoDup (map fst (piece_of o)) /\
+      forall q v, In (q, v) (piece_of o) <->
+        in_range sh q /\ (forall c, In c (sparse_of V args m true) -> stored c q) /\
+        (forall c, In c (sparse_of V args m false) -> ~ stored c q) /\
+        v = F args q /\ veqb v fill = false.
+  Proof.
+    intros Hok Hrel Hshok Hm Hany.
+    set (matched := sparse_of V args m true). set (unm := sparse_of V args m false).
+    assert (Hcanon : forall w c, In c (sparse_of V args m w) -> canonical V c /\ BT (c_shape c) sh).
+    { intros w c Hc. apply sparse_of_In in Hc. rewrite Forall_forall in Hok. destruct (Hok _ Hc) as [H1 _].
+      split; [exact H1|]. apply (rel_BT _ _ _ Hrel). apply in_map_iff. exists (OSp c). auto. }
+    (* the broadcast shape of the matched operands and the ndarrays *)
+    set (L := map (@c_shape V) matched ++ nd_shapes args).
+    assert (HL : incl L (map (op_shape V) args)).
+    { intros s Hs. apply in_app_or in Hs. destruct Hs as [Hs|Hs]; [|apply nd_shapes_incl; exact Hs].
+      apply in_map_iff in Hs. destruct Hs as [c [<- Hc]]. apply sparse_of_In in Hc.
+      apply in_map_iff. exists (OSp c). auto. }
+    destruct (nary_sub _ _ L Hrel HL) as [mbs [Hnary [Hrelm HBm]]].
+    assert (Hmok : shape_ok mbs) by (eapply BT_shape_ok; eauto).
+    assert (Hmatched_BT : Forall (fun c => BT (c_shape c) mbs) matched).
+    { apply Forall_forall. intros c Hc. apply (rel_BT _ _ _ Hrelm). apply in_or_app. left. apply in_map. exact Hc. }
+    assert (Hal : forall a mi, In (a, mi) (combine args m) -> aligned mbs a mi).
+    { apply combine_aligned.
+      - intros c Hc. rewrite Forall_forall in Hmatched_BT. auto.
+      - intros s Hs. apply (rel_BT _ _ _ Hrelm). apply in_or_app. right. exact Hs. }
+    assert (Hne : matched <> []) by (apply masks_any_true; assumption).
+    assert (Hmcan : Forall (canonical V) matched).
+    { apply Forall_forall. intros c Hc. apply (Hcanon true c Hc). }
+    destruct (match_coo_spec V vzero f matched mbs Hne Hmcan Hmatched_BT Hmok) as [rows [Erows [Rnd Rin]]].
+    unfold func_coords_data. fold matched unm. fold (nd_shapes args). fold L. rewrite Hnary. cbn [bind].
+    rewrite Erows. cbn [bind].
+    set (kept := filter (fun e : idx * V => negb (veqb (snd e) fill))
+                        (map (fun r : idx * list V => (fst r, f (func_args V vzero args m (fst r) (snd r)))) rows)).
+    (* the kept rows *)
+    assert (Kin : forall q v, In (q, v) kept <->
+               in_range mbs q /\ Forall (fun c => stored c q) matched /\ v = f (mvals args m q) /\ veqb v fill = false).
+    { assert (FA : forall q, func_args V vzero args m q (map (fun c => val_at c q) matched) = mvals args m q)
+        by (intros; apply func_args_mvals).
+      intros q v. unfold kept. rewrite filter_In, in_map_iff. simpl. rewrite negb_true_iff. split.
+      - intros [[[q' vs] [E Hin]] Hv]. simpl in E. inversion E; subst q' v. clear E.
+        apply Rin in Hin. destruct Hin as [Hq [Hst Hvs]]. subst vs. rewrite FA in *. auto.
+      - intros [Hq [Hst [Hv Hf]]]. split; [|exact Hf].
+        exists (q, map (fun c => val_at c q) matched). simpl. split.
+        + rewrite FA. congruence.
+        + apply Rin. auto. }
+    assert (Knd : NoDup (map fst kept)).
+    { unfold kept. apply NoDup_map_fst_filter. rewrite map_map. simpl. exact Rnd. }
+    (* what a position of the full shape must satisfy to come from a kept row *)
+    assert (Kfull : forall q v, in_range sh q ->
+               (In (bcast_idx mbs q, v) kept <->
+                (forall c, In c matched -> stored c q) /\ v = f (mvals args m q) /\ veqb v fill = false)).
+    { intros q v Hq. rewrite Kin. rewrite (mvals_bcast args m mbs sh q Hal HBm Hq). split.
+      - intros [_ [Hst [Hv Hf]]]. split; [|auto]. intros c Hc. rewrite Forall_forall in Hst, Hmatched_BT.
+        apply (stored_trans V c mbs sh q (Hmatched_BT c Hc) HBm Hq). auto.
+      - intros [Hst [Hv Hf]]. split; [eapply bcast_in_range; eauto|]. split; [|auto].
+        apply Forall_forall. intros c Hc. rewrite Forall_forall in Hmatched_BT.
+        apply (stored_trans V c mbs sh q (Hmatched_BT c Hc) HBm Hq). auto. }
+    clearbody kept. destruct kept as [|k0 kept'].
+    - (* nothing survives pruning *)
+      exists None. split; [reflexivity|]. simpl. split; [constructor|]. intros q v. split; [tauto|].
+      intros [Hq [Hst [Hun [Hv Hf]]]]. apply (Kfull q v Hq). split; [exact Hst|]. split; [|exact Hf].
+      rewrite Hv. unfold F. f_equal. symmetry. apply mvals_F; assumption.
+    - set (kept := k0 :: kept') in *.
+      set (es := if list_eq_dec Z.eq_dec mbs sh then kept
+                 else let '(c, d) := expand_coords_data (map fst kept) (map snd kept) (bcast_params mbs sh) sh in
+                      combine c d).
+      assert (Es : NoDup (map fst es) /\ forall q v, In (q, v) es <-> in_range sh q /\ In (bcast_idx mbs q, v) kept).
+      { unfold es. destruct (list_eq_dec Z.eq_dec mbs sh) as [->|Hne'].
+        - split; [exact Knd|]. intros q v. split.
+          + intros Hin. assert (Hq : in_range sh q) by (apply (Kin q v); exact Hin).
+            rewrite bcast_idx_id by exact Hq. auto.
+          + intros [Hq Hin]. rewrite bcast_idx_id in Hin by exact Hq. exact Hin.
+        - assert (Hr : Forall (fun r : idx * V => in_range mbs (fst r)) kept).
+          { apply Forall_forall. intros [q v] Hin. apply Kin in Hin. simpl. tauto. }
+          apply (expand_rows_spec mbs sh kept HBm Hshok Hr Knd). }
+      destruct Es as [End Ein].
+      assert (Er : Forall (fun e : idx * V => in_range sh (fst e)) es).
+      { apply Forall_forall. intros [q v] Hin. apply Ein in Hin. simpl. tauto. }
+      assert (Hunm : Forall (fun c => canonical V c /\ BT (c_shape c) sh) unm).
+      { apply Forall_forall. intros c Hc. apply (Hcanon false c Hc). }
+      destruct (drop_unmatched_spec sh es unm Er Hunm) as [bad [Ebad Hbad]].
+      assert (Final : forall (P : list (idx * V)),
+                 (forall q v, In (q, v) P <-> In (q, v) es /\ forall c, In c unm -> ~ stored c q) ->
+                 forall q v, In (q, v) P <->
+                   in_range sh q /\ (forall c, In c matched -> stored c q) /\
+                   (forall c, In c unm -> ~ stored c q) /\ v = F args q /\ veqb v fill = false).
+      { intros P HP q v. rewrite HP, Ein. split.
+        - intros [[Hq Hin] Hun]. apply (Kfull q v Hq) in Hin. destruct Hin as [Hst [Hv Hf]].
+          repeat split; auto. rewrite Hv. unfold F. f_equal. apply mvals_F; assumption.
+        - intros [Hq [Hst [Hun [Hv Hf]]]]. split; [|exact Hun]. split; [exact Hq|]. apply (Kfull q v Hq).
+          split; [exact Hst|]. split; [|exact Hf]. rewrite Hv. unfold F. f_equal. symmetry. apply mvals_F; assumption. }
+      change (match kept with [] => Ok None | _ :: _ => _ end) with
+        (if forallb (fun mi : option bool => match mi with Some false => false | _ => true end) m
+         then Ok (Some es)
+         else bad <- mapM (fun arg => match_coo_midx V sh (map fst es) arg) unm ;;
+              Ok (Some (filter_pos (fun n => negb (existsb (Nat.eqb n) (concat bad))) O es))).
+      destruct (forallb _ m) eqn:Hfb.
+      + exists (Some es). split; [reflexivity|]. simpl. split; [exact End|].
+        apply Final. intros q v. assert (Hun0 : unm = []) by (apply masks_no_false; exact Hfb).
+        rewrite Hun0. split; [intros H; split; [exact H|intros c []]|tauto].
+      + rewrite Ebad. cbn [bind]. eexists. split; [reflexivity|]. simpl. split.
+        * apply NoDup_map_fst_filter_pos. exact End.
+        * apply Final. exact Hbad.
+  Qed.
 End Pieces.
+
+(* ================================================================== the masks partition the stored positions *)
+
+Lemma NoDup_concat_pieces {M K W} (P : M -> list (K * W)) (ml : list M) :
+  NoDup ml -> (forall m, In m ml -> NoDup (map fst (P m))) ->
+  (forall m m' q, In m ml -> In m' ml -> In q (map fst (P m)) -> In q (map fst (P m')) -> m = m') ->
+  NoDup (map fst (concat (map P ml))).
+Proof.
+  induction 1 as [|m ml Hm Hnd IH]; intros H1 H2; simpl; [constructor|].
+  rewrite map_app. apply NoDup_app_intro.
+  - apply H1. left. reflexivity.
+  - apply IH; [intros; apply H1; right; assumption|]. intros m1 m2 q I1 I2. apply H2; right; assumption.
+  - intros q Hq Hq'. apply in_map_iff in Hq'. destruct Hq' as [[k w] [E Hin]]. simpl in E. subst k.
+    apply in_concat in Hin. destruct Hin as [l [Hl Hin]]. apply in_map_iff in Hl. destruct Hl as [m' [<- Hm']].
+    assert (m = m').
+    { apply (H2 m m' q); [left; reflexivity|right; exact Hm'|exact Hq|]. apply in_map_iff. exists (q, w). auto. }
+    subst m'. contradiction.
+Qed.
+
+Section Final.
+  Variable V : Type.
+  Variable veqb : V -> V -> bool.
+  Variable vzero : V.
+  Variable f : list V -> V.
+  Hypothesis veqb_eq : forall a b, veqb a b = true <-> a = b.
+
+  Notation stored := (stored V).
+  Notation F := (F V vzero f).
+
+  Definition storedb (c : coo V) (q : idx) : bool := existsb (idx_eqb (bcast_idx (c_shape c) q)) (c_coords c).
+
+  Lemma storedb_spec c q : storedb c q = true <-> stored c q.
+  Proof.
+    unfold storedb, ElemwiseGenP.stored. rewrite existsb_exists. split.
+    - intros [x [Hx E]]. apply idx_eqb_eq in E. subst x. exact Hx.
+    - intros H. exists (bcast_idx (c_shape c) q). split; [exact H|apply idx_eqb_refl].
+  Qed.
+
+  Definition mask_of (args : list (operand V)) (q : idx) : list (option bool) :=
+    map (fun a => match a with OSp c => Some (storedb c q) | ODn _ => None end) args.
+
+  Lemma mask_of_In args q : In (mask_of args q) (masks V args).
+  Proof.
+    induction args as [|a ar IH]; [left; reflexivity|]. apply masks_cons_In.
+    exists (match a with OSp c => Some (storedb c q) | ODn _ => None end), (mask_of ar q).
+    split; [reflexivity|]. split; [|exact IH]. unfold choices. destruct a as [c|d]; simpl.
+    - destruct (storedb c q); auto.
+    - auto.
+  Qed.
+
+  Lemma mask_of_sparse args q w c : In c (sparse_of V args (mask_of args q) w) -> storedb c q = w.
+  Proof.
+    induction args as [|a ar IH]; [simpl; tauto|]. simpl mask_of. rewrite sparse_of_cons. intros H.
+    apply in_app_or in H. destruct H as [H|H]; [|auto]. destruct a as [c'|d]; [|destruct H].
+    destruct (Bool.eqb (storedb c' q) w) eqn:E; [|destruct H]. destruct H as [<-|[]]. apply eqb_prop. exact E.
+  Qed.
+
+  Lemma mask_unique args m q :
+    In m (masks V args) -> (forall c, In c (sparse_of V args m true) -> stored c q) ->
+    (forall c, In c (sparse_of V args m false) -> ~ stored c q) -> m = mask_of args q.
+  Proof.
+    revert m. induction args as [|a ar IH]; intros m Hm H1 H2.
+    - simpl in Hm. destruct Hm as [<-|[]]. reflexivity.
+    - apply masks_cons_In in Hm. destruct Hm as [c [m' [-> [Hc Hm']]]]. rewrite sparse_of_cons in H1, H2.
+      simpl. f_equal.
+      + unfold choices in Hc. destruct a as [co|d]; simpl in Hc.
+        * destruct Hc as [<-|[<-|[]]]; f_equal; symmetry.
+          -- apply storedb_spec. apply H1. left. reflexivity.
+          -- apply not_true_is_false. intros E. apply storedb_spec in E. apply (H2 co); [left; reflexivity|exact E].
+        * destruct Hc as [<-|[]]. reflexivity.
+      + apply IH; [exact Hm'| |]; intros c0 Hc0; [apply H1|apply H2]; apply in_or_app; right; exact Hc0.
+  Qed.
+
+  Lemma mask_of_any args q :
+    existsb is_true (mask_of args q) = true <-> exists c, In (OSp c) args /\ stored c q.
+  Proof.
+    induction args as [|a ar IH]; simpl.
+    - split; [discriminate|]. intros [c [[] _]].
+    - rewrite orb_true_iff, IH. split.
+      + intros [H|[c [Hc Hs]]]; [|eauto]. destruct a as [c|d]; [|discriminate].
+        exists c. split; [left; reflexivity|]. apply storedb_spec. destruct (storedb c q); [reflexivity|discriminate].
+      + intros [c [[E|Hc] Hs]]; [|right; eauto]. subst a. left. apply storedb_spec in Hs. rewrite Hs. reflexivity.
+  Qed.
+
+  Lemma masks_NoDup args : NoDup (masks V args).
+  Proof.
+    induction args as [|a ar IH]; simpl; [constructor; [tauto|constructor]|].
+    assert (G : forall (cs : list (option bool)), NoDup cs -> NoDup (flat_map (fun c => map (cons c) (masks V ar)) cs)).
+    { induction 1 as [|c cs Hc Hnd IHc]; simpl; [constructor|]. apply NoDup_app_intro.
+      - apply NoDup_map_in; [|exact IH]. intros x y _ _ E. inversion E; reflexivity.
+      - exact IHc.
+      - intros x Hx Hx'. apply in_map_iff in Hx. destruct Hx as [m' [<- _]].
+        apply in_flat_map in Hx'. destruct Hx' as [c' [Hc' Hx']]. apply in_map_iff in Hx'.
+        destruct Hx' as [m'' [E _]]. inversion E; subst. contradiction. }
+    apply G. destruct (is_sparse V a).
+    - constructor; [simpl; intros [E|[]]; discriminate|]. constructor; [simpl; tauto|constructor].
+    - constructor; [simpl; tauto|constructor].
+  Qed.
+
+  Lemma preprocess_at a q : operand_at V vzero (preprocess V a) q = operand_at V vzero a q.
+  Proof.
+    destruct a as [c|d]; [|reflexivity]. simpl. destruct (c_shape c) eqn:E; [|simpl; rewrite E; reflexivity].
+    simpl. unfold dense_get. simpl. unfold bcast_idx. simpl. reflexivity.
+  Qed.
+
+  Lemma preprocess_F args0 q : F (map (preprocess V) args0) q = F args0 q.
+  Proof. unfold ElemwiseGenP.F. rewrite map_map. f_equal. apply map_ext. intros a. apply preprocess_at. Qed.
+
+  Lemma preprocess_shape a : op_shape V (preprocess V a) = op_shape V a.
+  Proof. destruct a as [c|d]; [|reflexivity]. simpl. destruct (c_shape c) eqn:E; simpl; congruence. Qed.
+
+  Lemma preprocess_ok a : op_ok V a -> op_ok V (preprocess V a).
+  Proof.
+    destruct a as [c|d]; [|auto]. simpl. destruct (c_shape c) eqn:E; simpl; [intros _; constructor|].
+    rewrite E. auto.
+  Qed.
+
+  Definition constant_fill (args : list (operand V)) (nd : shape) : Prop :=
+    exists v, forall q0, in_range nd q0 -> fill_at V vzero f args q0 = v.
+
+  Lemma get_fill_value_spec args sh nd :
+    match get_fill_value V veqb vzero f args sh nd with
+    | FillSparse fill => forall q0, in_range nd q0 -> fill_at V vzero f args q0 = fill
+    | FillDense => ~ constant_fill args nd /\ sh = nd
+    | FillError => ~ constant_fill args nd /\ sh <> nd
+    end.
+  Proof.
+    unfold get_fill_value. set (arr := map (fill_at V vzero f args) (all_indices nd)).
+    set (fill := match arr with v :: _ => v | [] => zeros_fill V vzero f args end).
+    destruct (forallb (veqb fill) arr) eqn:Hall.
+    - intros q0 Hq0. rewrite forallb_forall in Hall. symmetry. apply veqb_eq. apply Hall.
+      unfold arr. apply in_map. apply all_indices_In. exact Hq0.
+    - assert (Hnc : ~ constant_fill args nd).
+      { intros [v Hv]. assert (forallb (veqb fill) arr = true); [|congruence].
+        apply forallb_forall. intros x Hx. apply veqb_eq.
+        assert (Hx' : x = v).
+        { unfold arr in Hx. apply in_map_iff in Hx. destruct Hx as [q0 [<- Hq0]]. apply Hv. apply all_indices_In. exact Hq0. }
+        subst x. unfold fill. destruct arr as [|y arr'] eqn:Ea; [destruct Hx|].
+        assert (In y arr) by (rewrite Ea; left; reflexivity). unfold arr in H. apply in_map_iff in H.
+        destruct H as [q0 [<- Hq0]]. apply Hv. apply all_indices_In. exact Hq0. }
+      destruct (list_eq_dec Z.eq_dec sh nd); auto.
+  Qed.
+
+  Lemma F_unstored args sh nd q :
+    (forall c, In (OSp c) args -> ~ stored c q) ->
+    (forall d, In (ODn d) args -> BT (d_shape d) nd) -> BT nd sh -> in_range sh q ->
+    F args q = fill_at V vzero f args (bcast_idx nd q).
+  Proof.
+    intros Hun Hd HB Hq. unfold ElemwiseGenP.F, fill_at. f_equal. apply map_ext_in. intros a Ha.
+    destruct a as [c|d]; simpl.
+    - apply den_unstored. apply Hun. exact Ha.
+    - rewrite (bcast_idx_trans _ _ _ (Hd d Ha) HB q Hq). reflexivity.
+  Qed.
+
+  Lemma nd_shapes_In args d : In (ODn d) args -> In (d_shape d) (nd_shapes V args).
+  Proof.
+    induction args as [|a ar IH]; simpl; [tauto|]. intros [->|H]; [left; reflexivity|].
+    destruct a; [auto|right; auto].
+  Qed.
+
+  (* the sparse branch of get_result: concatenation of the mask pieces, then the COO constructor *)
+  Lemma sparse_branch args sh nd fill :
+    Forall (op_ok V) args -> np_broadcast_rel (map (op_shape V) args) sh -> shape_ok sh ->
+    np_broadcast_rel (nd_shapes V args) nd -> BT nd sh ->
+    (forall q0, in_range nd q0 -> fill_at V vzero f args q0 = fill) ->
+    exists pieces,
+      mapM (func_coords_data V veqb vzero f args sh fill) (filter (existsb is_true) (masks V args)) = Ok pieces /\
+      let es := concat (map (fun o => match o with Some l => l | None => [] end) pieces) in
+      exists r, result_ctor V sh es fill = Some r /\
+        c_shape r = sh /\ c_fill r = fill /\ canonical V r /\ prunedb veqb r = true /\
+        forall q, in_range sh q -> den r q = F args q.
+  Proof.
+    intros Hok Hrel Hshok Hreln HBn Hfill.
+    set (ml := filter (existsb is_true) (masks V args)).
+    assert (Hml : forall m, In m ml <-> In m (masks V args) /\ existsb is_true m = true)
+      by (intros m; unfold ml; apply filter_In).
+    set (P := fun m => piece_of V (match func_coords_data V veqb vzero f args sh fill m with Ok o => o | Raise _ => None end)).
+    assert (HP : forall m, In m ml ->
+               NoDup (map fst (P m)) /\
+               forall q v, In (q, v) (P m) <->
+                 in_range sh q /\ (forall c, In c (sparse_of V args m true) -> stored c q) /\
+                 (forall c, In c (sparse_of V args m false) -> ~ stored c q) /\
+                 v = F args q /\ veqb v fill = false).
+    { intros m Hm. apply Hml in Hm. destruct Hm as [Hm Hany].
+      destruct (piece_spec V veqb vzero f args sh fill m Hok Hrel Hshok Hm Hany) as [o [E [Hnd Hin]]].
+      unfold P. rewrite E. auto. }
+    rewrite (mapM_Ok _ None).
+    2:{ intros m Hm. apply Hml in Hm. destruct Hm as [Hm Hany].
+        destruct (piece_spec V veqb vzero f args sh fill m Hok Hrel Hshok Hm Hany) as [o [E _]]. eauto. }
+    eexists. split; [reflexivity|]. cbv zeta. rewrite map_map. fold (piece_of V). 
+    change (map (fun x => piece_of V (match func_coords_data V veqb vzero f args sh fill x with Ok y => y | Raise _ => None end)) ml)
+      with (map P ml).
+    set (es := concat (map P ml)).
+    assert (Ein : forall q v, In (q, v) es <-> exists m, In m ml /\ In (q, v) (P m)).
+    { intros q v. unfold es. rewrite in_concat. split.
+      - intros [l [Hl Hin]]. apply in_map_iff in Hl. destruct Hl as [m [<- Hm]]. eauto.
+      - intros [m [Hm Hin]]. exists (P m). split; [apply in_map; exact Hm|exact Hin]. }
+    assert (End : NoDup (map fst es)).
+    { unfold es. apply NoDup_concat_pieces.
+      - unfold ml. apply NoDup_filter. apply masks_NoDup.
+      - intros m Hm. apply (HP m Hm).
+      - intros m m' q Hm Hm' Hq Hq'. apply in_map_iff in Hq. apply in_map_iff in Hq'.
+        destruct Hq as [[k v] [E Hin]]. destruct Hq' as [[k' v'] [E' Hin']]. simpl in E, E'. subst k k'.
+        apply (HP m Hm) in Hin. apply (HP m' Hm') in Hin'.
+        destruct Hin as [_ [A1 [A2 _]]]. destruct Hin' as [_ [B1 [B2 _]]].
+        apply Hml in Hm. apply Hml in Hm'.
+        rewrite (mask_unique args m q (proj1 Hm) A1 A2), (mask_unique args m' q (proj1 Hm') B1 B2). reflexivity. }
+    assert (Erange : forall q v, In (q, v) es -> in_range sh q /\ veqb v fill = false).
+    { intros q v Hin. apply Ein in Hin. destruct Hin as [m [Hm Hin]]. apply (HP m Hm) in Hin. tauto. }
+    unfold result_ctor. simpl.
+    set (s := sort_coo V sh es). pose proof (sort_coo_perm V sh es) as Hp. fold s in Hp.
+    eexists. split; [reflexivity|]. simpl. split; [reflexivity|]. split; [reflexivity|]. split; [|split].
+    - unfold canonical. simpl. split; [|split].
+      + apply Forall_forall. intros q Hq. apply in_map_iff in Hq. destruct Hq as [[k v] [<- Hin]].
+        eapply Permutation_in in Hin; [|exact Hp]. apply (Erange k v Hin).
+      + apply sort_coo_canonical; [|exact End]. apply Forall_forall. intros [q v] Hin. apply (Erange q v Hin).
+      + rewrite !map_length. reflexivity.
+    - unfold prunedb. simpl. apply forallb_forall. intros v Hv. apply in_map_iff in Hv.
+      destruct Hv as [[q w] [<- Hq]]. simpl. eapply Permutation_in in Hq; [|exact Hp].
+      apply Erange in Hq. destruct Hq as [_ Hq]. rewrite Hq. reflexivity.
+    - intros q Hq. destruct (den_sorted_entries V sh es fill q End) as [Hin Hout]. fold s in Hin, Hout.
+      destruct (existsb is_true (mask_of args q)) eqn:Hany.
+      + assert (Hm0 : In (mask_of args q) ml) by (apply Hml; split; [apply mask_of_In|exact Hany]).
+        destruct (veqb (F args q) fill) eqn:Ev.
+        * apply veqb_eq in Ev. rewrite Ev. apply Hout. intros Hk. apply in_map_iff in Hk.
+          destruct Hk as [[k v] [E Hk]]. simpl in E. subst k. apply Ein in Hk. destruct Hk as [m [Hm Hk]].
+          apply (HP m Hm) in Hk. destruct Hk as [_ [_ [_ [Hv Hf]]]]. subst v.
+          rewrite Ev in Hf. assert (veqb fill fill = true) by (apply veqb_eq; reflexivity). congruence.
+        * apply Hin. apply Ein. exists (mask_of args q). split; [exact Hm0|]. apply (HP _ Hm0).
+          split; [exact Hq|]. split; [|split; [|auto]].
+          -- intros c Hc. apply storedb_spec. eapply mask_of_sparse; eauto.
+          -- intros c Hc Hs. apply storedb_spec in Hs. rewrite (mask_of_sparse args q false c Hc) in Hs. discriminate.
+      + assert (Hnone : forall c, In (OSp c) args -> ~ stored c q).
+        { intros c Hc Hs. assert (existsb is_true (mask_of args q) = true); [|congruence].
+          apply mask_of_any. eauto. }
+        rewrite (F_unstored args sh nd q Hnone); [| |exact HBn|exact Hq].
+        * rewrite Hfill by (eapply bcast_in_range; eauto). apply Hout. intros Hk. apply in_map_iff in Hk.
+          destruct Hk as [[k v] [E Hk]]. simpl in E. subst k. apply Ein in Hk. destruct Hk as [m [Hm Hk]].
+          apply (HP m Hm) in Hk. destruct Hk as [_ [Hst _]]. apply Hml in Hm. destruct Hm as [Hm Hany'].
+          pose proof (masks_any_true V args m Hm Hany') as Hne.
+          destruct (sparse_of V args m true) as [|c0 rest] eqn:Es; [congruence|].
+          apply (Hnone c0); [|apply Hst; left; reflexivity].
+          eapply sparse_of_In. rewrite Es. left. reflexivity.
+        * intros d Hd. apply (rel_BT _ _ _ Hreln). apply nd_shapes_In. exact Hd.
+  Qed.
+
+  (* what get_result returns, case by case *)
+  Definition elemwise_post (args0 : list (operand V)) (out : outcome V) : Prop :=
+    let args := map (preprocess V) args0 in
+    match out with
+    | OutErr e =>
+      e = ValueError /\
+      ((~ exists sh, np_broadcast_rel (map (op_shape V) args0) sh) \/
+       (exists sh nd, np_broadcast_rel (map (op_shape V) args0) sh /\ np_broadcast_rel (nd_shapes V args) nd /\
+                      ~ constant_fill args nd /\ sh <> nd))
+    | OutDense d =>
+      exists sh, np_broadcast_rel (map (op_shape V) args0) sh /\ np_broadcast_rel (nd_shapes V args) sh /\
+                 ~ constant_fill args sh /\ d = mkDense sh (map (F args0) (all_indices sh))
+    | OutSparse r =>
+      exists sh nd, np_broadcast_rel (map (op_shape V) args0) sh /\ np_broadcast_rel (nd_shapes V args) nd /\
+                    constant_fill args nd /\
+                    c_shape r = sh /\ (forall q0, in_range nd q0 -> c_fill r = fill_at V vzero f args q0) /\
+                    canonical V r /\ prunedb veqb r = true /\
+                    forall q, in_range sh q -> den r q = F args0 q
+    end.
+
+  Theorem elemwise_den_proof (args0 : list (operand V)) :
+    Forall (op_ok V) args0 -> existsb (is_sparse V) args0 = true ->
+    elemwise_post args0 (elemwise V veqb vzero f args0).
+  Proof.
+    intros Hok0 Hsp. unfold elemwise. rewrite Hsp. cbn [negb]. set (args := map (preprocess V) args0).
+    assert (Hshapes : map (op_shape V) args = map (op_shape V) args0).
+    { unfold args. rewrite map_map. apply map_ext. intros a. apply preprocess_shape. }
+    assert (Hok : Forall (op_ok V) args).
+    { unfold args. apply Forall_forall. intros a Ha. apply in_map_iff in Ha. destruct Ha as [a0 [<- Ha0]].
+      apply preprocess_ok. rewrite Forall_forall in Hok0. auto. }
+    fold (nd_shapes V args). pose proof (nary_sound (map (op_shape V) args)) as Hs.
+    destruct (nary_broadcast_shape (map (op_shape V) args)) as [sh|e].
+    - destruct (nary_sub _ _ (nd_shapes V args) Hs (nd_shapes_incl V args)) as [nd [En [Hreln HBn]]].
+      rewrite En.
+      assert (Hshok : shape_ok sh).
+      { eapply rel_shape_ok; [|exact Hs].
+        apply Forall_forall. intros s0 Hs0. apply in_map_iff in Hs0. destruct Hs0 as [a [<- Ha]].
+        rewrite Forall_forall in Hok. specialize (Hok a Ha). destruct a; simpl in *; tauto. }
+      pose proof (get_fill_value_spec args sh nd) as Hg.
+      destruct (get_fill_value V veqb vzero f args sh nd) as [fill| |].
+      + assert (Hcf : constant_fill args nd) by (exists fill; exact Hg).
+        destruct (existsb (Z.eqb 0) sh) eqn:Ez.
+        * unfold elemwise_post. fold args. exists sh, nd. rewrite <- Hshapes.
+          split; [exact Hs|]. split; [exact Hreln|]. split; [exact Hcf|]. split; [reflexivity|].
+          split; [intros q0 Hq0; simpl; symmetry; apply Hg; exact Hq0|].
+          split; [unfold canonical; simpl; repeat split; constructor|]. split; [reflexivity|].
+          intros q Hq. apply in_range_no_zero in Hq. congruence.
+        * destruct (sparse_branch args sh nd fill Hok Hs Hshok Hreln HBn Hg) as [pieces [Ep [r [Er [R1 [R2 [R3 [R4 R5]]]]]]]].
+          rewrite Ep, Er. unfold elemwise_post. fold args. exists sh, nd. rewrite <- Hshapes.
+          split; [exact Hs|]. split; [exact Hreln|]. split; [exact Hcf|]. split; [exact R1|].
+          split; [intros q0 Hq0; rewrite R2; symmetry; apply Hg; exact Hq0|].
+          split; [exact R3|]. split; [exact R4|].
+          intros q Hq. rewrite R5 by exact Hq. apply preprocess_F.
+      + destruct Hg as [Hnc ->]. unfold elemwise_post. fold args. exists nd. rewrite <- Hshapes.
+        split; [exact Hs|]. split; [exact Hreln|]. split; [exact Hnc|].
+        f_equal. apply map_ext. intros q. rewrite <- preprocess_F. reflexivity.
+      + destruct Hg as [Hnc Hne]. unfold elemwise_post. fold args. split; [reflexivity|]. right.
+        exists sh, nd. rewrite <- Hshapes. auto.
+    - destruct Hs as [-> Hn]. unfold elemwise_post. split; [reflexivity|]. left. intros [sh Hsh].
+      apply Hn. rewrite Hshapes. eapply rel_compat; eauto.
+  Qed.
+End Final.
+
+(* ================================================================== compositions ("programs") *)
+
+Section Programs.
+  Variable V : Type.
+  Variable veqb : V -> V -> bool.
+  Variable vzero : V.
+  Hypothesis veqb_eq : forall a b, veqb a b = true <-> a = b.
+
+  (* expression trees over sparse arrays and scalars; every node carries its own function *)
+  Inductive expr :=
+  | ELeaf (c : coo V)
+  | EConst (v : V)
+  | EOp1 (g : list V -> V) (e1 : expr)
+  | EOp2 (g : list V -> V) (e1 e2 : expr)
+  | EOp3 (g : list V -> V) (e1 e2 e3 : expr).
+
+  Definition scalar (v : V) : operand V := ODn (mkDense [] [v]).
+
+  (* one step as the library performs it: through _Elemwise when an operand is sparse, plain scalar
+     arithmetic otherwise; ValueError / dense results abort the program *)
+  Definition apply_op (g : list V -> V) (args : list (operand V)) : option (operand V) :=
+    if existsb (is_sparse V) args then
+      match elemwise V veqb vzero g args with
+      | OutSparse r => Some (OSp r)
+      | _ => None
+      end
+    else Some (scalar (g (map (fun a => operand_at V vzero a []) args))).
+
+  Fixpoint eval (e : expr) : option (operand V) :=
+    match e with
+    | ELeaf c => Some (OSp c)
+    | EConst v => Some (scalar v)
+    | EOp1 g e1 => match eval e1 with Some a1 => apply_op g [a1] | None => None end
+    | EOp2 g e1 e2 =>
+      match eval e1, eval e2 with Some a1, Some a2 => apply_op g [a1; a2] | _, _ => None end
+    | EOp3 g e1 e2 e3 =>
+      match eval e1, eval e2, eval e3 with Some a1, Some a2, Some a3 => apply_op g [a1; a2; a3] | _, _, _ => None end
+    end.
+
+  (* NumPy's evaluation of the same program on dense arrays: shape and value function *)
+  Inductive dense_eval : expr -> shape -> (idx -> V) -> Prop :=
+  | DE_leaf c : dense_eval (ELeaf c) (c_shape c) (den c)
+  | DE_const v : dense_eval (EConst v) [] (fun _ => v)
+  | DE_op1 g e1 s1 d1 sh :
+      dense_eval e1 s1 d1 -> np_broadcast_rel [s1] sh ->
+      dense_eval (EOp1 g e1) sh (fun q => g [d1 (bcast_idx s1 q)])
+  | DE_op2 g e1 e2 s1 d1 s2 d2 sh :
+      dense_eval e1 s1 d1 -> dense_eval e2 s2 d2 -> np_broadcast_rel [s1; s2] sh ->
+      dense_eval (EOp2 g e1 e2) sh (fun q => g [d1 (bcast_idx s1 q); d2 (bcast_idx s2 q)])
+  | DE_op3 g e1 e2 e3 s1 d1 s2 d2 s3 d3 sh :
+      dense_eval e1 s1 d1 -> dense_eval e2 s2 d2 -> dense_eval e3 s3 d3 -> np_broadcast_rel [s1; s2; s3] sh ->
+      dense_eval (EOp3 g e1 e2 e3) sh
+                 (fun q => g [d1 (bcast_idx s1 q); d2 (bcast_idx s2 q); d3 (bcast_idx s3 q)]).
+
+  Fixpoint wf_expr (e : expr) : Prop :=
+    match e with
+    | ELeaf c => canonical V c /\ shape_ok (c_shape c)
+    | EConst _ => True
+    | EOp1 _ e1 => wf_expr e1
+    | EOp2 _ e1 e2 => wf_expr e1 /\ wf_expr e2
+    | EOp3 _ e1 e2 e3 => wf_expr e1 /\ wf_expr e2 /\ wf_expr e3
+    end.
+
+  (* an intermediate value: a canonical sparse array or a scalar *)
+  Definition val_ok (a : operand V) : Prop :=
+    match a with
+    | OSp c => canonical V c /\ shape_ok (c_shape c)
+    | ODn d => d_shape d = [] /\ exists v, d_flat d = [v]
+    end.
+
+  Lemma val_ok_op_ok a : val_ok a -> op_ok V a.
+  Proof. destruct a; simpl; [auto|]. intros [-> _]. constructor. Qed.
+
+  Lemma bcast_idx_nil q : bcast_idx [] q = [].
+  Proof. reflexivity. Qed.
+
+  Lemma operand_at_idem a q sh :
+    val_ok a -> BT (op_shape V a) sh -> in_range sh q ->
+    operand_at V vzero a q = operand_at V vzero a (bcast_idx (op_shape V a) q).
+  Proof.
+    intros Hok HB Hq. destruct a as [c|d]; simpl in *.
+    - rewrite (bcast_idx_id (c_shape c) (bcast_idx (c_shape c) q)); [reflexivity|]. eapply bcast_in_range; eauto.
+    - destruct Hok as [E _]. rewrite E. rewrite !bcast_idx_nil. reflexivity.
+  Qed.
+
+  Lemma scalars_nd args : Forall val_ok args -> forall s, In s (nd_shapes V (map (preprocess V) args)) -> s = [].
+  Proof.
+    induction 1 as [|a ar Ha Har IH]; simpl; [tauto|]. intros s Hs.
+    destruct a as [c|d]; simpl in *.
+    - destruct (c_shape c); simpl in Hs; [destruct Hs as [<-|Hs]; auto|auto].
+    - destruct Hs as [<-|Hs]; [tauto|auto].
+  Qed.
+
+  Lemma rel_all_nil l r : (forall s, In s l -> s = []) -> np_broadcast_rel l r -> r = [].
+  Proof.
+    intros Hl [L _]. assert (max_ndim l = 0%nat).
+    { clear -Hl. induction l as [|s l IH]; simpl; [reflexivity|]. rewrite (Hl s) by (left; reflexivity). simpl.
+      apply IH. intros; apply Hl; right; assumption. }
+    destruct r; [reflexivity|simpl in L; lia].
+  Qed.
+
+  (* one step agrees with NumPy *)
+  Lemma apply_op_spec g args sh :
+    Forall val_ok args -> args <> [] -> np_broadcast_rel (map (op_shape V) args) sh ->
+    exists a, apply_op g args = Some a /\ op_shape V a = sh /\ val_ok a /\
+              forall q, in_range sh q -> operand_at V vzero a q = g (map (fun x => operand_at V vzero x q) args).
+  Proof.
+    intros Hok Hne Hrel. unfold apply_op. destruct (existsb (is_sparse V) args) eqn:Hsp.
+    - assert (Hok' : Forall (op_ok V) args) by (eapply Forall_impl; [|exact Hok]; apply val_ok_op_ok).
+      pose proof (elemwise_den_proof V veqb vzero g veqb_eq args Hok' Hsp) as Hpost.
+      destruct (elemwise V veqb vzero g args) as [r|d|e]; unfold elemwise_post in Hpost.
+      + destruct Hpost as [sh' [nd [R1 [R2 [_ [P1 [_ [P3 [_ P5]]]]]]]]].
+        assert (Esh : sh' = sh) by (eapply rel_unique; eauto). rewrite Esh in *. clear Esh.
+        exists (OSp r). split; [reflexivity|]. split; [exact P1|]. split.
+        * split; [exact P3|]. rewrite P1. eapply rel_shape_ok; [|exact Hrel].
+          apply Forall_forall. intros s Hs. apply in_map_iff in Hs. destruct Hs as [a [<- Ha]].
+          rewrite Forall_forall in Hok'. specialize (Hok' a Ha). destruct a; simpl in *; tauto.
+        * intros q Hq. simpl. rewrite P1, (bcast_idx_id sh q Hq). apply P5. exact Hq.
+      + exfalso. destruct Hpost as [sh' [_ [R2 [Hnc _]]]].
+        assert (sh' = []) by (eapply rel_all_nil; [apply scalars_nd; exact Hok|exact R2]). subst sh'.
+        apply Hnc. exists (fill_at V vzero g (map (preprocess V) args) []). intros q0 Hq0.
+        destruct q0; [reflexivity|simpl in Hq0; tauto].
+      + exfalso. destruct Hpost as [_ [Hno|[sh' [nd [_ [R2 [Hnc _]]]]]]]; [apply Hno; eauto|].
+        assert (nd = []) by (eapply rel_all_nil; [apply scalars_nd; exact Hok|exact R2]). subst nd.
+        apply Hnc. exists (fill_at V vzero g (map (preprocess V) args) []). intros q0 Hq0.
+        destruct q0; [reflexivity|simpl in Hq0; tauto].
+    - (* only scalars *)
+      assert (Hall : forall a, In a args -> op_shape V a = []).
+      { intros a Ha. rewrite Forall_forall in Hok. specialize (Hok a Ha). destruct a as [c|d]; simpl in *; [|tauto].
+        exfalso. assert (existsb (is_sparse V) args = true); [|congruence].
+        apply existsb_exists. exists (OSp c). auto. }
+      assert (sh = []).
+      { eapply rel_all_nil; [|exact Hrel]. intros s Hs. apply in_map_iff in Hs. destruct Hs as [a [<- Ha]]. auto. }
+      subst sh. eexists. split; [reflexivity|]. split; [reflexivity|]. split; [simpl; eauto|].
+      intros q Hq. destruct q; [|simpl in Hq; tauto]. reflexivity.
+  Qed.
+
+  Lemma operand_at_leaf_or_val a sh d q :
+    val_ok a -> BT (op_shape V a) sh -> in_range sh q ->
+    (forall q', in_range (op_shape V a) q' -> operand_at V vzero a q' = d q') ->
+    operand_at V vzero a q = d (bcast_idx (op_shape V a) q).
+  Proof.
+    intros Hok HB Hq Hd. rewrite (operand_at_idem a q sh Hok HB Hq). apply Hd. eapply bcast_in_range; eauto.
+  Qed.
+
+  Theorem programs_proof (e : expr) : wf_expr e -> forall sh d, dense_eval e sh d ->
+    exists a, eval e = Some a /\ op_shape V a = sh /\ val_ok a /\
+              forall q, in_range sh q -> operand_at V vzero a q = d q.
+  Proof.
+    induction e as [c|v|g e1 IH1|g e1 IH1 e2 IH2|g e1 IH1 e2 IH2 e3 IH3]; intros Hwf sh d Hd; simpl in Hwf.
+    - inversion Hd; subst. exists (OSp c). split; [reflexivity|]. split; [reflexivity|]. split; [exact Hwf|].
+      intros q Hq. simpl. rewrite bcast_idx_id by exact Hq. reflexivity.
+    - inversion Hd; subst. exists (scalar v). split; [reflexivity|]. split; [reflexivity|]. split; [simpl; eauto|].
+      intros q Hq. reflexivity.
+    - inversion Hd as [ | |g' e1' s1 d1 sh' He1 Hr| | ]; subst.
+      destruct (IH1 Hwf _ _ He1) as [a1 [E1 [S1 [O1 D1]]]]. simpl. rewrite E1.
+      assert (Hrel : np_broadcast_rel (map (op_shape V) [a1]) sh) by (simpl; rewrite S1; assumption).
+      destruct (apply_op_spec g [a1] sh) as [a [Ea [Sa [Oa Da]]]]; auto; [discriminate|].
+      exists a. repeat split; auto. intros q Hq. rewrite (Da q Hq). simpl. f_equal. f_equal.
+      rewrite <- S1. apply (operand_at_leaf_or_val a1 sh); auto; [|rewrite S1; exact D1].
+      apply (rel_BT _ _ _ Hrel). left. reflexivity.
+    - inversion Hd as [ | | |g' e1' e2' s1 d1 s2 d2 sh' He1 He2 Hr| ]; subst. destruct Hwf as [W1 W2].
+      destruct (IH1 W1 _ _ He1) as [a1 [E1 [S1 [O1 D1]]]]. destruct (IH2 W2 _ _ He2) as [a2 [E2 [S2 [O2 D2]]]].
+      simpl. rewrite E1, E2.
+      assert (Hrel : np_broadcast_rel (map (op_shape V) [a1; a2]) sh) by (simpl; rewrite S1, S2; assumption).
+      destruct (apply_op_spec g [a1; a2] sh) as [a [Ea [Sa [Oa Da]]]]; auto; [discriminate|].
+      exists a. repeat split; auto. intros q Hq. rewrite (Da q Hq). simpl. f_equal.
+      rewrite <- S1, <- S2. f_equal; [|f_equal].
+      + apply (operand_at_leaf_or_val a1 sh); auto; [|rewrite S1; exact D1]. apply (rel_BT _ _ _ Hrel). simpl; auto.
+      + apply (operand_at_leaf_or_val a2 sh); auto; [|rewrite S2; exact D2]. apply (rel_BT _ _ _ Hrel). simpl; auto.
+    - inversion Hd as [ | | | |g' e1' e2' e3' s1 d1 s2 d2 s3 d3 sh' He1 He2 He3 Hr]; subst. destruct Hwf as [W1 [W2 W3]].
+      destruct (IH1 W1 _ _ He1) as [a1 [E1 [S1 [O1 D1]]]]. destruct (IH2 W2 _ _ He2) as [a2 [E2 [S2 [O2 D2]]]].
+      destruct (IH3 W3 _ _ He3) as [a3 [E3 [S3 [O3 D3]]]].
+      simpl. rewrite E1, E2, E3.
+      assert (Hrel : np_broadcast_rel (map (op_shape V) [a1; a2; a3]) sh) by (simpl; rewrite S1, S2, S3; assumption).
+      destruct (apply_op_spec g [a1; a2; a3] sh) as [a [Ea [Sa [Oa Da]]]]; auto; [discriminate|].
+      exists a. repeat split; auto. intros q Hq. rewrite (Da q Hq). simpl. f_equal.
+      rewrite <- S1, <- S2, <- S3. f_equal; [|f_equal; [|f_equal]].
+      + apply (operand_at_leaf_or_val a1 sh); auto; [|rewrite S1; exact D1]. apply (rel_BT _ _ _ Hrel). simpl; auto.
+      + apply (operand_at_leaf_or_val a2 sh); auto; [|rewrite S2; exact D2]. apply (rel_BT _ _ _ Hrel). simpl; auto.
+      + apply (operand_at_leaf_or_val a3 sh); auto; [|rewrite S3; exact D3]. apply (rel_BT _ _ _ Hrel). simpl; auto.
+  Qed.
+End Programs.
+
+(* ================================================================== the mask partition, stated on its own *)
+
+Theorem mask_partition_proof (V : Type) (veqb : V -> V -> bool) (vzero : V) (f : list V -> V)
+        (args : list (operand V)) (sh : shape) (fill : V) :
+  Forall (op_ok V) args -> np_broadcast_rel (map (op_shape V) args) sh -> shape_ok sh ->
+  forall m, In m (masks V args) -> existsb is_true m = true ->
+  exists o, func_coords_data V veqb vzero f args sh fill m = Ok o /\
+    NoDup (map fst (piece_of V o)) /\
+    forall q v, In (q, v) (piece_of V o) <->
+      (in_range sh q /\ m = mask_of V args q /\ v = F V vzero f args q /\ veqb v fill = false).
+Proof.
+  intros Hok Hrel Hshok m Hm Hany.
+  destruct (piece_spec V veqb vzero f args sh fill m Hok Hrel Hshok Hm Hany) as [o [E [Hnd Hin]]].
+  exists o. split; [exact E|]. split; [exact Hnd|]. intros q v. rewrite Hin. split.
+  - intros [Hq [H1 [H2 [Hv Hf]]]]. repeat split; auto. apply mask_unique; assumption.
+  - intros [Hq [Em [Hv Hf]]]. subst m. repeat split; auto.
+    + intros c Hc. apply storedb_spec. eapply mask_of_sparse; eauto.
+    + intros c Hc Hs. apply storedb_spec in Hs. rewrite (mask_of_sparse V args q false c Hc) in Hs. discriminate.
+Qed.
+
+(* ================================================================== non-vacuity *)
+
+Definition ex_add (l : list Z) : Z := fold_right Z.add 0 l.
+Definition ex_mul (l : list Z) : Z := fold_right Z.mul 1 l.
+Definition ex_x : coo Z := mkCOO [3] [[0]; [2]] [5; 7] 0.
+Definition ex_y : coo Z := mkCOO [2; 1] [[1; 0]] [4] 1.
+
+Lemma ex_ok (c : coo Z) : canonicalb c = true -> forallb (fun d => 0 <=? d) (c_shape c) = true -> op_ok Z (OSp c).
+Proof.
+  intros H1 H2. split; [apply canonicalb_spec; exact H1|]. apply Forall_forall. intros d Hd.
+  rewrite forallb_forall in H2. apply Z.leb_le. apply H2. exact Hd.
+Qed.
+
+Example elemwise_den_nonvacuous :
+  Forall (op_ok Z) [OSp ex_x; OSp ex_y; ODn (mkDense [] [2])] /\
+  existsb (is_sparse Z) [OSp ex_x; OSp ex_y; ODn (mkDense [] [2])] = true /\
+  elemwise Z Z.eqb 0 ex_add [OSp ex_x; OSp ex_y; ODn (mkDense [] [2])] =
+  OutSparse (mkCOO [2; 3] [[0; 0]; [0; 2]; [1; 0]; [1; 1]; [1; 2]] [8; 10; 11; 6; 13] 3).
+Proof.
+  split; [|split; reflexivity].
+  constructor; [apply ex_ok; reflexivity|]. constructor; [apply ex_ok; reflexivity|].
+  constructor; [constructor|constructor].
+Qed.
+
+Example elemwise2_den_nonvacuous :
+  canonical Z ex_x /\ canonical Z (mkCOO [3] [[1]; [2]] [1; -7] 0) /\
+  elemwise2 Z Z.eqb 0 ex_add ex_x (mkCOO [3] [[1]; [2]] [1; -7] 0) = mkCOO [3] [[0]; [1]] [5; 1] 0.
+Proof. repeat split; try (apply canonicalb_spec; reflexivity). Qed.
+
+Example programs_nonvacuous :
+  let e := EOp2 Z ex_add (EOp2 Z ex_mul (ELeaf Z ex_x) (EConst Z 2)) (ELeaf Z ex_y) in
+  wf_expr Z e /\
+  dense_eval Z e [2; 3] (fun q => ex_add [ex_mul [den ex_x (bcast_idx [3] (bcast_idx [3] q)); 2]; den ex_y (bcast_idx [2; 1] q)]) /\
+  eval Z Z.eqb 0 e = Some (OSp (mkCOO [2; 3] [[0; 0]; [0; 2]; [1; 0]; [1; 1]; [1; 2]] [11; 15; 14; 4; 18] 1)).
+Proof.
+  cbv zeta. split; [|split; [|reflexivity]].
+  - simpl. repeat split; try (apply canonicalb_spec; reflexivity); repeat constructor; lia.
+  - apply (DE_op2 Z ex_add _ _ [3] (fun q => ex_mul [den ex_x (bcast_idx [3] q); 2]) [2; 1] (den ex_y)).
+    + apply (DE_op2 Z ex_mul (ELeaf Z ex_x) (EConst Z 2) [3] (den ex_x) [] (fun _ => 2)).
+      * apply (DE_leaf Z ex_x).
+      * apply DE_const.
+      * apply (proj1 (broadcast_shape_spec_proof _)). reflexivity.
+    + apply (DE_leaf Z ex_y).
+    + apply (proj1 (broadcast_shape_spec_proof _)). reflexivity.
+Qed.
+
+Example mask_partition_nonvacuous :
+  Forall (op_ok Z) [OSp ex_x; OSp ex_y] /\ np_broadcast_rel (map (op_shape Z) [OSp ex_x; OSp ex_y]) [2; 3] /\
+  shape_ok [2; 3] /\ In [Some true; Some false] (masks Z [OSp ex_x; OSp ex_y]) /\
+  func_coords_data Z Z.eqb 0 ex_add [OSp ex_x; OSp ex_y] [2; 3] 1 [Some true; Some false] =
+  Ok (Some [([0; 0], 6); ([0; 2], 8)]).
+Proof.
+  split; [constructor; [apply ex_ok; reflexivity|constructor; [apply ex_ok; reflexivity|constructor]]|].
+  split; [apply (proj1 (broadcast_shape_spec_proof _)); reflexivity|].
+  split; [repeat constructor; lia|]. split; [simpl; auto|]. reflexivity.
+Qed.
